@@ -438,14 +438,15 @@ def sequential_outcomes(name, prefix, a, b):
     outs = []
     for order in ((a, b), (b, a)):
         sm = prefix_to_state(name, prefix)
-        res = {}
+        res = []
         for nm in order:
             try:
                 sm._perform_transition(nm)
-                res[nm] = "ok"
+                res.append((nm, "ok"))
             except Exception as exc:  # noqa: BLE001
-                res[nm] = type(exc).__name__
-        outs.append({"results": res, **observe(sm)})
+                res.append((nm, type(exc).__name__))
+        # one entry per requester (the two requests may name the same transition), order-free
+        outs.append({"results": sorted(res), **observe(sm)})
     return outs
 
 
@@ -454,14 +455,14 @@ def run_pair(devs, budgets, machine=None, prefix=None, a=None, b=None):
 
     def driver(s):
         sm = prefix_to_state(machine, prefix)
-        res = {}
+        res = []
 
         def req(nm):
             try:
                 sm._perform_transition(nm)
-                res[nm] = "ok"
+                res.append((nm, "ok"))
             except Exception as exc:  # noqa: BLE001
-                res[nm] = type(exc).__name__
+                res.append((nm, type(exc).__name__))
 
         t1 = vrt.Thread(target=req, args=(a,), name="req-a")
         t2 = vrt.Thread(target=req, args=(b,), name="req-b")
@@ -469,7 +470,7 @@ def run_pair(devs, budgets, machine=None, prefix=None, a=None, b=None):
         t2.start()
         t1.join()
         t2.join()
-        box["obs"] = {"results": res, **observe(sm)}
+        box["obs"] = {"results": sorted(res), **observe(sm)}
         box["allowed"] = sequential_outcomes(machine, prefix, a, b)
 
     sched = vrt.run(driver, devs, budgets, max_steps=200000, max_time=1e6)
